@@ -58,6 +58,7 @@ func runConstraints(rc *sim.RunCtx, prop string) {
 	cfg.InvalidPct = []int{0, 8, 20}[t.Choose(3)]
 	g := NewGen(t, si, cfg)
 	m := NewModel(si)
+	m.DevHas = func(p string) bool { _, ok := w.Dev.State[p]; return ok }
 	rc.Scenario("constraints profile; disabled=%+v invalidPct=%d seqvalidation=%t", dis, cfg.InvalidPct, seqVal)
 	nsteps := 2 + t.Choose(7)
 	if rc.Tier == "thorough" {
